@@ -139,13 +139,15 @@ func genRWatch(repo, out string) {
 		checksDisable, checksNil, stopOnStop, clearsBoot, clearsBB, clearsTail, resumes bool
 		clearedBeforeDial, aborts, otherContinues, dialErrContinues, resets, perEvent   bool
 		forwardsInline, defaultCtor, srvFailedPrecondition                              bool
+		reportsStatus, reportsEOF, sendErrorOK                                          bool
 	)
 
 	f := parse(filepath.Join(repo, "pkg/state/protobuf/client/client.go"))
 
 	var (
-		recvMsg  *ast.FuncLit
-		mainLoop *ast.ForStmt
+		recvMsg   *ast.FuncLit
+		sendError *ast.FuncLit
+		mainLoop  *ast.ForStmt
 	)
 
 	if fd := method(f, "Adapter", "watchAdapter"); fd != nil && fd.Body != nil {
@@ -154,6 +156,8 @@ func genRWatch(repo, out string) {
 				switch src(as.Lhs[0]) {
 				case "recvMessage":
 					recvMsg, _ = as.Rhs[0].(*ast.FuncLit)
+				case "sendError":
+					sendError, _ = as.Rhs[0].(*ast.FuncLit)
 				case "backoff":
 					defaultCtor = src(as.Rhs[0]) == "backoff.NewExponentialBackOff()"
 				}
@@ -285,6 +289,72 @@ func genRWatch(repo, out string) {
 		forwardsInline = first && noGo && sends
 	}
 
+	// the event loop's error branch: `if err != nil { sendError(err); return }` right after
+	// `msg, err := recvMessage()`. One other shape is recognised so that the model follows the
+	// code: the report guarded by `!errors.Is(err, io.EOF)`. Anything else: nothing is reported.
+	if mainLoop != nil && len(mainLoop.Body.List) > 1 && src(mainLoop.Body.List[0]) == "msg, err := recvMessage()" {
+		if is, ok := mainLoop.Body.List[1].(*ast.IfStmt); ok && is.Init == nil && is.Else == nil && src(is.Cond) == "err != nil" && len(is.Body.List) == 2 {
+			ret, isRet := is.Body.List[1].(*ast.ReturnStmt)
+
+			switch first := is.Body.List[0].(type) {
+			case *ast.ExprStmt:
+				if isRet && len(ret.Results) == 0 && src(first) == "sendError(err)" {
+					reportsStatus, reportsEOF = true, true
+				}
+			case *ast.IfStmt:
+				if isRet && len(ret.Results) == 0 && first.Init == nil && first.Else == nil &&
+					src(first.Cond) == "!errors.Is(err, io.EOF)" && src(first.Body) == "{ sendError(err) }" {
+					reportsStatus, reportsEOF = true, false
+				}
+			}
+		}
+	}
+
+	// sendError: one tag-less switch with the arms `singleCh != nil` / `aggregatedCh != nil`, each ONE
+	// channel.SendWithContext(ctx, <that channel>, …) whose payload has `Type: state.Errored`
+	if sendError != nil && len(sendError.Body.List) == 1 {
+		if sw, ok := sendError.Body.List[0].(*ast.SwitchStmt); ok && sw.Tag == nil && sw.Init == nil && len(sw.Body.List) == 2 {
+			okArms := 0
+
+			for i, ch := range []string{"singleCh", "aggregatedCh"} {
+				cc := sw.Body.List[i].(*ast.CaseClause) //nolint:forcetypeassert
+				if len(cc.List) != 1 || src(cc.List[0]) != ch+" != nil" || len(cc.Body) != 1 {
+					continue
+				}
+
+				es, ok := cc.Body[0].(*ast.ExprStmt)
+				if !ok {
+					continue
+				}
+
+				call, ok := es.X.(*ast.CallExpr)
+				if !ok || src(call.Fun) != "channel.SendWithContext" || len(call.Args) != 3 || src(call.Args[0]) != "ctx" || src(call.Args[1]) != ch {
+					continue
+				}
+
+				errored := 0
+
+				ast.Inspect(call.Args[2], func(x ast.Node) bool {
+					if kv, ok := x.(*ast.KeyValueExpr); ok && src(kv.Key) == "Type" {
+						if src(kv.Value) == "state.Errored" {
+							errored++
+						} else {
+							errored = -100
+						}
+					}
+
+					return true
+				})
+
+				if errored == 1 {
+					okArms++
+				}
+			}
+
+			sendErrorOK = okArms == 2
+		}
+	}
+
 	sf := parse(filepath.Join(repo, "pkg/state/protobuf/server/server.go"))
 	if fd := method(sf, "State", "Watch"); fd != nil && fd.Body != nil {
 		ast.Inspect(fd.Body, func(x ast.Node) bool {
@@ -326,6 +396,12 @@ func genRWatch(repo, out string) {
 	l.line("def bookmarkPerEvent : Bool := %s", leanBool(perEvent))
 	l.line("/-- event loop: starts with `msg, err := recvMessage()`, ends with the switch forwarding every event, no `go` statement -/")
 	l.line("def forwardsBeforeNextRecv : Bool := %s", leanBool(forwardsInline))
+	l.line("/-- event loop: `if err != nil { sendError(err); return }` right after `msg, err := recvMessage()`: a status error ends the watch with sendError -/")
+	l.line("def eventLoopReportsStatus : Bool := %s", leanBool(reportsStatus))
+	l.line("/-- … and so does a clean end of stream (io.EOF); false when the report is guarded by `!errors.Is(err, io.EOF)` -/")
+	l.line("def eventLoopReportsEOF : Bool := %s", leanBool(reportsEOF))
+	l.line("/-- sendError sends ONE event with `Type: state.Errored` on whichever of singleCh / aggregatedCh is in use -/")
+	l.line("def sendErrorSendsErrored : Bool := %s", leanBool(sendErrorOK))
 	l.line("/-- `backoff := backoff.NewExponentialBackOff()` without options -/")
 	l.line("def backoffDefaultCtor : Bool := %s", leanBool(defaultCtor))
 	l.line("/-- server.go Watch: `case state.IsInvalidWatchBookmarkError(err): return status.Error(codes.FailedPrecondition, …)` -/")
